@@ -707,8 +707,54 @@ func (fx *Fx) eval(v ssa.Value, fr *Frame, depth int) Rat {
 			return *first
 		}
 		return fx.symFor(v, fr, isDecType(v))
+	case *ssa.Alloc:
+		// a *big.Int built in place: z := &big.Int{}; z.Sqrt(x) — the single mutating call defines it
+		if typeIs(x.Type(), "math/big", "Int") {
+			var def *ssa.Call
+			n := 0
+			for _, r := range *x.Referrers() {
+				if c, ok := r.(*ssa.Call); ok && !c.Common().IsInvoke() && len(c.Common().Args) > 0 && c.Common().Args[0] == x {
+					if pkg, name := calleeName(c.Common()); pkg == "math/big" {
+						switch name {
+						case "Int.Sqrt", "Int.Add", "Int.Sub", "Int.Mul", "Int.Div", "Int.Quo", "Int.Set":
+							def = c
+							n++
+						}
+					}
+				}
+			}
+			if n == 1 {
+				return fx.evalCall(def, fr, depth+1)
+			}
+		}
+		return fx.symFor(v, fr, false)
+	case *ssa.Field:
+		if fieldNameShort(x.X.Type(), x.Field) == "Amount" && typeIs(x.X.Type(), "github.com/cosmos/cosmos-sdk/types", "Coin") {
+			if cs := fx.coins(x.X, fr, depth+1); len(cs) == 1 {
+				return cs[0].Amt
+			}
+		}
+		return fx.symFor(v, fr, isDecType(v))
 	case *ssa.UnOp:
 		if x.Op == token.MUL {
+			// amount of a coin held in a local / parameter
+			if fa, ok := x.X.(*ssa.FieldAddr); ok && fieldNameShort(fa.X.Type(), fa.Field) == "Amount" && typeIs(fa.X.Type(), "github.com/cosmos/cosmos-sdk/types", "Coin") {
+				if a, ok := fa.X.(*ssa.Alloc); ok {
+					var sv ssa.Value
+					n := 0
+					for _, r := range *a.Referrers() {
+						if st, ok := r.(*ssa.Store); ok && st.Addr == a {
+							sv = st.Val
+							n++
+						}
+					}
+					if n == 1 {
+						if cs := fx.coins(sv, fr, depth+1); len(cs) == 1 {
+							return cs[0].Amt
+						}
+					}
+				}
+			}
 			// load: single-store local
 			if a, ok := x.X.(*ssa.Alloc); ok {
 				var sv ssa.Value
